@@ -4,19 +4,7 @@ Prints one JSON line: {"executed": {module: {"kind": "plain"|"hooked:<K>"|"hooke
 import importlib, json, sys, os, glob
 
 
-def main():
-    forest, cfg = sys.argv[1], json.loads(sys.argv[2])
-    sys.dont_write_bytecode = False             # the sandbox exports PYTHONDONTWRITEBYTECODE=1
-    sys.path.insert(0, forest)
-    import spyreg
-    from jaxtyping import install_import_hook
-    for names, chk in cfg["groups"]:
-        install_import_hook(names, None if chk is None else "spy%s.check" % chk)
-    for m in cfg["order"]:
-        try:
-            importlib.import_module(m)
-        except Exception as e:  # noqa
-            print(json.dumps({"error": "import %s failed: %s: %s" % (m, type(e).__name__, e)})); return
+def observe(cfg, spyreg):
     out = {}
     for name in cfg["modules"]:
         mod = sys.modules.get(name)
@@ -27,8 +15,47 @@ def main():
         who = sorted({k for (mm, q, k) in spyreg.LOG if mm == name})
         kind = ("hooked:%s" % (who[0] if len(who) == 1 else "None" if not who else who)) if wrapped else ("plain" if not who else "plain-but-spied")
         out[name] = {"kind": kind, "version": mod.VERSION}
-    pycs = sorted(os.path.relpath(p, forest) for p in glob.glob(forest + "/**/*.pyc", recursive=True))
-    print(json.dumps({"executed": out, "pycs": pycs}))
+    return out
+
+
+def main():
+    forest, cfg = sys.argv[1], json.loads(sys.argv[2])
+    sys.dont_write_bytecode = False             # the sandbox exports PYTHONDONTWRITEBYTECODE=1
+    sys.path.insert(0, forest)
+    import spyreg
+    from jaxtyping import install_import_hook
+    managers = []
+    for names, chk in cfg["groups"]:
+        managers.append(install_import_hook(names, None if chk is None else "spy%s.check" % chk))
+    for m in cfg["order"]:
+        try:
+            importlib.import_module(m)
+        except Exception as e:  # noqa
+            print(json.dumps({"error": "import %s failed: %s: %s" % (m, type(e).__name__, e)})); return
+    res = {"executed": observe(cfg, spyreg)}
+    then = cfg.get("then")
+    if then is not None:
+        # same interpreter, hooks removed, (optionally) sources edited, the forest's modules dropped from sys.modules and imported
+        # again by the ordinary machinery: nothing may be instrumented now, and what this leaves in the cache is judged by later runs
+        for mg in managers:
+            mg.uninstall()
+        for rel, text, stamp in then["writes"]:
+            p = os.path.join(forest, rel)
+            open(p, "w").write(text)
+            os.utime(p, (stamp, stamp))
+        for name in list(sys.modules):
+            if name in cfg["modules"] or name == "frag":
+                del sys.modules[name]
+        importlib.invalidate_caches()
+        del spyreg.LOG[:]
+        for m in then["order"]:
+            try:
+                importlib.import_module(m)
+            except Exception as e:  # noqa
+                print(json.dumps({"error": "un-hooked re-import of %s failed: %s: %s" % (m, type(e).__name__, e)})); return
+        res["executed2"] = observe(cfg, spyreg)
+    res["pycs"] = sorted(os.path.relpath(p, forest) for p in glob.glob(forest + "/**/*.pyc", recursive=True))
+    print(json.dumps(res))
 
 
 if __name__ == "__main__":
